@@ -86,6 +86,22 @@ def groups_part(ctx, eng, r, exprs, o1, stats):
             items.append((e, unhex(f[1])))
     cases = ["ranges %s %s" % (hexs(e), m) for e, T in items for m in "spn"]
     outs = eng.run_impl(cases)
+    # the pure text of theorem C14_ranged_fit and its bracket groups (C14_ranged_text_groups), evaluated by the extracted model,
+    # against what the implementation printed into a buffer that is large enough and handed out group by group
+    mo = eng.run_model([x for e, T in items for x in ("rtext " + hexs(e), "gtexts " + hexs(e))])
+    for j, (e, T) in enumerate(items):
+        stats["ranged_text_model"] = stats.get("ranged_text_model", 0) + 1
+        rt, gt = mo[2 * j], mo[2 * j + 1]
+        if rt.startswith(("HANG", "MODEL-CRASH")):
+            continue
+        want = "%d %s" % (len(T), hexs(T))
+        G = split_groups(T)
+        wantg = "OK" + "".join(" " + hexs(g) for g in G)
+        if T and (rt != want or gt != wantg):
+            ctx.violation("no-failing-input-found", case="ranged %s %d" % (hexs(e), BIG), expected=(rt + " / " + gt)[:400], observed=(want + " / " + wantg)[:400], engine="hl",
+                          correspondence="hl: text printed by hostlist_ranged_string into a large buffer = ranged_text / gtexts of the model (Hostlist/HLRangedFit.v)",
+                          detail="the implementation's bracketed text differs from the text function the fit theorem is about; list %r" % e[:120])
+            break
     k = 0
     bad = 0
     for e, T in items:
